@@ -461,9 +461,19 @@ def run(ctx):
               "one table set per level, returned in level order", f"cells built by {ap}, returns {rets}", key="cells")
     # read_boxes: cell_paths / npoints appended per level
     rb = prog.func(PC, "PlotfileCooker.read_boxes", P)
-    txt = {norm(s) for s in walk_no_nested(rb.node) if isinstance(s, ast.Expr)}
-    ctx.check({"self.cell_paths.append(cell_dir)", "self.npoints.append(n_cells)"} <= txt, f"{P}.LEVEL-COH", rb.site,
-              "level directory and box count recorded per level", "cell_paths/npoints bookkeeping changed", key="paths")
+    benv = rules.local_env(rb.node)
+    lvl = [n for n in rb.node.body if isinstance(n, ast.For)]
+    got = {}
+    for lp in lvl[:1]:
+        for st in lp.body:       # directly in the level loop: once per level
+            if isinstance(st, ast.Expr) and isinstance(st.value, ast.Call) and isinstance(st.value.func, ast.Attribute) \
+                    and st.value.func.attr == "append" and len(st.value.args) == 1:
+                got.setdefault(norm(st.value.func.value), []).append(rules.deep(st.value.args[0], benv, rb.params))
+    ok = got.get("self.cell_paths") == ["hfile.readline().split('/')[0]"] and \
+        got.get("self.npoints") in (["int(n_cells)"], ["n_cells"])
+    ctx.check(ok, f"{P}.LEVEL-COH", rb.site,
+              "level directory (first component of the Header's path line) and box count are recorded once per level",
+              f"per-level bookkeeping appends {got}", key="paths", semantic=len(lvl) == 1)
     if ctx.tier == "thorough":
         hfab.check_sibling_parsers(ctx, P)
     ctx.assume("float()/int() parse the tokens as written; AMReX plotfile format as tabulated in checks/C02.py")
